@@ -125,13 +125,23 @@ fn run(ctx: &RunCtx) -> Report {
     let kind = rng.below(4);
     let key_seed: [u8; 32] = rng.bytes(32).try_into().unwrap();
     let info_hash = rng.id();
+    // value sizes: small, medium, and (1 in 4) at the BEP44 limit of 1000 bytes, where a reply that
+    // also carries 20 nodes is about 1.7 kB
+    let vlen = match rng.below(8) {
+        0 | 1 => *rng.pick(&[1000usize, 999, 990, 960, 900]),
+        2 => rng.usize(200, 800),
+        _ => rng.usize(1, 60),
+    };
+    if vlen >= 900 && kind <= 1 {
+        report.probe("values_of_900_to_1000_bytes", 1);
+    }
     let stored = match kind {
-        0 => Stored::Immutable(rng.bytes(40)),
+        0 => Stored::Immutable(rng.bytes(vlen)),
         1 => Stored::Mutable {
             key_seed,
             salt: if rng.chance(1, 2) { Some(b"salt".to_vec()) } else { None },
             seq: rng.range(0, 100) as i64,
-            value: rng.bytes(20),
+            value: rng.bytes(vlen),
         },
         2 => Stored::Peer { info_hash, port: if rng.chance(1, 2) { Some(rng.range(1, 65535) as u16) } else { None } },
         _ => Stored::Signed { info_hash, key_seed },
@@ -168,6 +178,37 @@ fn run(ctx: &RunCtx) -> Report {
         warm_reader = Some(r);
         late_joiner = Some(j);
         report.probe("warm_cache_late_joiner_runs", 1);
+    }
+    // variant (1 run in 25): the reader is a *veteran* that has already sent more than 2^16 requests
+    // (transaction ids beyond 16 bits). Cheap way to get there: a client whose bootstrap list holds
+    // 1100 dead addresses next to a live one - every lookup in a small network also asks all
+    // bootstrap addresses - doing find_node lookups until its request count passes 66 000.
+    let mut veteran: Option<HostId> = None;
+    if !large && !warm && rng.chance(1, 25) {
+        let ip = if plan.public { pub_ip(&mut rng) } else { priv_ip(31_000) };
+        let mut spec = NodeSpec::new(ip, 6881);
+        let mut b = vec![sim.node_addr(net.first).to_string()];
+        for i in 0..1100u32 {
+            b.push(SocketAddrV4::new(std::net::Ipv4Addr::new(203, 0, (113 + i / 250) as u8, (1 + i % 250) as u8), 6881).to_string());
+        }
+        spec.bootstrap = b;
+        let v = sim.add_node(spec);
+        let bo = sim.bootstrapped(v);
+        sim.run_ops(&[bo], sim.now() + 60 * SEC);
+        let mut sent = 0usize;
+        let mut rounds = 0;
+        while sent < 66_000 && rounds < 100 {
+            let o = sim.find_node(v, rng.id());
+            sim.run_ops(&[o], sim.now() + 60 * SEC);
+            sent = sim.with_trace(|tr| tr.iter().filter(|d| d.from_host == Some(v)).count());
+            rounds += 1;
+        }
+        if sent >= 66_000 {
+            report.probe("veteran_reader_runs", 1);
+            veteran = Some(v);
+        }
+        all.push(v);
+        net.clients.push(v);
     }
     // variant: the writer announces the same info hash both ways at once (as a torrent client would)
     let both_announces = kind >= 2 && rng.chance(1, 5) && !large;
@@ -247,6 +288,7 @@ fn run(ctx: &RunCtx) -> Report {
             }
         }
     }
+    crashed.retain(|h| Some(*h) != veteran);
     // readers: other nodes, alive
     let mut reader_pool: Vec<HostId> = all.iter().copied().filter(|h| *h != writer && !crashed.contains(h)).collect();
     if reader_pool.is_empty() {
@@ -281,7 +323,7 @@ fn run(ctx: &RunCtx) -> Report {
     };
     sim.run_for(gap);
     report.probe(if gap > 45 * SEC { "reads_later_than_45s" } else { "reads_within_45s" }, 1);
-    if let Some(r) = warm_reader {
+    if let Some(r) = warm_reader.or(veteran) {
         reader_pool = vec![r];
     }
     if reader_pool.is_empty() {
@@ -300,7 +342,10 @@ fn run(ctx: &RunCtx) -> Report {
     let what = format!("{what_base} ackers={:?} crashed={:?} restarted={:?} crash_mode={crash_mode}", acked.iter().map(|h| sim.node_addr(*h)).collect::<Vec<_>>(), crashed.iter().map(|h| sim.node_addr(*h)).collect::<Vec<_>>(), restarted.iter().map(|h| sim.node_addr(*h)).collect::<Vec<_>>());
     // adaptive-mode clients may have become servers meanwhile: with more than 20 storing nodes the
     // deterministic verdict no longer applies (completeness is then probabilistic)
-    let servers_now = live.iter().filter(|h| sim.snapshot(**h).map(|s| s.server_mode).unwrap_or(false)).count();
+    // (crashed servers count too: they stay in the tables for 15+ minutes and keep their rank among
+    // the 20 candidates of a lookup, as do the former identities of restarted ones)
+    let switched = live.iter().filter(|h| !net.servers.contains(h) && sim.snapshot(**h).map(|s| s.server_mode).unwrap_or(false)).count();
+    let servers_now = net.servers.len() + restarted.len() + switched;
     let beyond_envelope = servers_now > 20 && !large;
     if beyond_envelope {
         report.probe("more_than_20_servers_after_adaptive_switch", 1);
@@ -355,6 +400,17 @@ fn run(ctx: &RunCtx) -> Report {
             continue;
         }
         report.probe(if ok { "found" } else { "not_found" }, 1);
+        if !ok && ctx.verbose {
+            let ra = sim.node_addr(*reader);
+            let t_issue = sim.with_op(op, |o| o.issued_at);
+            sim.with_trace(|tr| {
+                for d in tr.iter().filter(|d| d.t_send >= t_issue && (d.src == ra || d.dst == ra)) {
+                    if d.dst == ra || !matches!(d.fate, Fate::NoSuchDest) {
+                        println!("  t={:.3}s {} -> {} {} consumed={:?}", d.t_send as f64 / 1e9, d.src, d.dst, Krpc::parse(&d.bytes).map(|k| format!("{:?} tid={:?} target={:?}", k.query_name(), k.tid_u32(), k.target().map(|t| hex8(&t)))).unwrap_or_default(), d.consumed);
+                    }
+                }
+            });
+        }
         if !ok {
             let key = match variant {
                 2 if kind >= 2 => "not-found-while-other-kind-lookup-in-flight-on-same-target",
